@@ -111,6 +111,9 @@ def strict_facts(fs):
     for op, f in fs:
         if op == "<=" and f in ne:
             out.append(("<", f))
+        if op == "!=" and f.k == 0 and len(f.terms) == 1 and abs(f.terms[0][1]) == 1 and atom_nonneg(f.terms[0][0]):
+            # x != 0 for a quantity that cannot be negative: x >= 1
+            out.append(("<=", Lin.const(1) - Lin.atom(f.terms[0][0])))
     return out
 
 
